@@ -2,6 +2,7 @@ package main
 
 import (
 	"fmt"
+	"strings"
 	"go/token"
 	"go/types"
 	"math/big"
@@ -252,6 +253,10 @@ func (x *Exec) unop(fr *Frame, st *State, in *ssa.UnOp) *Value {
 	case token.MUL: // load
 		x.checkNonNil(fr, st, v, in.Pos(), "load")
 		if v.P.Global != "" {
+			if strings.HasSuffix(v.P.Global, ".init$guard") {
+				// a package initialiser is verified for its first (and only effective) execution
+				return scalar(in.Type(), False)
+			}
 			if gv := x.globalInit(fr, st, v.P, in.Type()); gv != nil {
 				return gv
 			}
@@ -945,6 +950,7 @@ func (x *Exec) next(fr *Frame, st *State, in *ssa.Next) *Value {
 		w := x.ctx.App("runeWidth", IntSort, it.str, pos)
 		x.assume(st, Implies(okT, And(Ge(w, IntLit(1)), Le(w, IntLit(4)), Le(Add(pos, w), n),
 			Implies(Lt(x.sat(it.str, pos), IntLit(128)), And(Eq(w, IntLit(1)), Eq(r, x.sat(it.str, pos)))),
+			Implies(Ge(x.sat(it.str, pos), IntLit(128)), Ge(r, IntLit(128))),
 			Ge(r, IntLit(0)), Le(r, IntLit(0x10FFFF)))))
 		st.cells[it.cell] = scalar(types.Typ[types.Int], Ite(okT, Add(pos, w), pos))
 		x.cellsW[it.cell] = true
